@@ -72,16 +72,37 @@ def branch_style(body):
 def rule_r1(rep, repo):
     f = repo.method("AtomGrid", "from_preset")
     # the dispatch chain: first top-level `if` whose test mentions preset and whose branches return
+    # boolean locals computed before the dispatch (`is_count = preset in [...]; is_count = is_count or ...`)
+    # are substituted into the guards, in statement order
+    import copy
+    bools = {}
+
+    class _Subst(ast.NodeTransformer):
+        def visit_Name(self, node):
+            if isinstance(node.ctx, ast.Load) and node.id in bools:
+                return copy.deepcopy(bools[node.id])
+            return node
+
+    def inline(test):
+        return ast.fix_missing_locations(_Subst().visit(copy.deepcopy(test)))
     chain = None
     for s in strip_docstring(f.node.body):
-        if isinstance(s, ast.If) and "preset" in norm(s.test) and any(isinstance(x, ast.Return) for x in ast.walk(s)):
+        if isinstance(s, ast.Assign) and len(s.targets) == 1 and isinstance(s.targets[0], ast.Name):
+            if isinstance(s.value, (ast.Compare, ast.BoolOp)) or \
+                    (isinstance(s.value, ast.UnaryOp) and isinstance(s.value.op, ast.Not)) or \
+                    (isinstance(s.value, ast.Name) and s.value.id in bools):
+                bools[s.targets[0].id] = inline(s.value)
+            else:
+                bools.pop(s.targets[0].id, None)
+        if isinstance(s, ast.If) and "preset" in norm(inline(s.test)) and any(isinstance(x, ast.Return) for x in ast.walk(s)):
             chain = s
+            break
     if chain is None:
         raise AnalysisError("unrecognised idiom: AtomGrid.from_preset has no preset dispatch chain")
     branches = []
     cur = chain
     while True:
-        branches.append((cur.test, cur.body))
+        branches.append((inline(cur.test), cur.body))
         if len(cur.orelse) == 1 and isinstance(cur.orelse[0], ast.If):
             cur = cur.orelse[0]
         else:
